@@ -41,6 +41,9 @@ SCRIPTS = {
     # an escape sequence split over two reads, then a pause longer than the escape time-out; the application swaps the top widget mid-session
     "split-esc": [("keys", b"\x1b"), ("keys", b"[A"), ("sleep", 0.25), ("keys", b"b"), ("keys", F8)],
     "swap": [("keys", b"a"), ("swap",), ("keys", b"k"), ("keys", F5), ("keys", F8)],
+    # the screen is stopped and started again while the loop runs (shelling out); a key handler swaps the top widget while later keys of the same read are pending
+    "restart": [("keys", b"a"), ("keys", F5), ("keys", b"k"), ("keys", F8)],  # the f5 handler restarts the screen
+    "burst-swap": [("keys", F5 + b"k" + b"j"), ("keys", F8)],
 }
 # what the script sends, as the keys urwid names
 EXPECT = {
@@ -50,6 +53,8 @@ EXPECT = {
     "resize-pipe": ["window resize", "f5", "f8"],
     "split-esc": ["up", "b", "f8"],
     "swap": ["a", "k", "f5", "f8"],
+    "restart": ["a", "f5", "k", "f8"],
+    "burst-swap": ["f5", "k", "j", "f8"],
 }
 
 
@@ -190,6 +195,12 @@ def session(cfg, inject_at=None, kind=None):
             raise urwid.ExitMainLoop
         if k == "f5" and script_name == "mouse-alarm":
             ml.set_alarm_in(0.0, lambda loop, data: site("alarm"))
+        if k == "f5" and script_name == "restart":
+            ml.screen.stop()
+            ml.screen.start()
+        if k == "f5" and script_name == "burst-swap":
+            calls.append(("swap",))
+            ml.widget = w2
         return False
 
     if hook:
@@ -492,7 +503,7 @@ def configs(tier):
         for script in SCRIPTS:
             if tier == "quick" and loopname not in ("select", "asyncio") and script not in ("burst", "resize-pipe"):
                 continue
-            if tier == "quick" and script in ("split-esc", "swap") and loopname != "select":
+            if tier == "quick" and script in ("split-esc", "swap", "restart", "burst-swap") and loopname != "select":
                 continue
             for popups in (False, True):
                 for paste in (False, True):
@@ -503,6 +514,8 @@ def configs(tier):
     out.append(("keys", "select", False, False, False, "default"))
     out.append(("split-esc", "select", False, False, False, "default"))
     out.append(("swap", "select", False, True, False, "default"))
+    out.append(("restart", "select", False, False, False, "default"))
+    out.append(("burst-swap", "select", False, True, False, "default"))
     out.append(("burst", "select", False, True, True, "default"))
     out.append(("mouse-alarm", "select", False, False, True, "custom"))
     return out
@@ -521,8 +534,9 @@ def run(tier, R):
         "traces_validated_against_impl": ev,
         "evaluations": ev,
         "distinct_nontrivial": nt,
-        "rule": f"{len(cfgs)} configurations (6 scripts: keys / a burst of three keys in one read / mouse press+release, alarm / resize, pipe write, watched descriptor / an escape "
-        "sequence split over two reads followed by a pause longer than the escape time-out / the application replacing loop.widget mid-session; x "
+        "rule": f"{len(cfgs)} configurations (8 scripts: keys / a burst of three keys in one read / mouse press+release, alarm / resize, pipe write, watched descriptor / an escape "
+        "sequence split over two reads followed by a pause longer than the escape time-out / the application replacing loop.widget mid-session / the screen stopped and started again while the loop runs / a key handler replacing "
+        "loop.widget while later keys of the same read are pending; x "
         "select, asyncio, tornado, twisted, trio, zmq; raw Screen with hook_event_loop and a wrapper without it; pop_ups; bracketed paste + focus reporting; default and custom "
         "SIGWINCH/SIGTSTP/SIGCONT handlers); per configuration one clean session, then one session per callback-site invocation index (input filter, keypress, mouse_event, "
         "unhandled_input, alarm, watch, pipe, render in the idle redraw) x {ExitMainLoop, an Exception subclass, SystemExit}; every session in its own forked process over "
